@@ -12,7 +12,7 @@ FLOCQ = ("Axioms (standard library, via Flocq's Reals): ClassicalDedekindReals.s
 
 CLAIMED = {
     "C01": dict(
-        text="Full (safety, unbounded) on the v2 model: for every divider (stateful and faulty ones included, only assumed to return a map), every mix of buffered and unbuffered inputs and every interleaving of producers, consumers, releases and clock ticks, each priority's in-flight counter equals the items of that priority in the output buffer, held by handlers and waiting in the feedback channel, the total never exceeds HandlersQuantity, and inside a round actual+tactic stays within it (C01_v2_accounting/capacity/round_budget). The model is tied to v2 and v1 by exact comparison, after every driver operation, of deliveries, output length, the scheduling state (actual/strategic per priority, read through a build-tagged snapshot hook) and the divider-call arguments; the capacity is monitored on the implementation, in v1 also across AddInput/RemoveInput. The same invariant is proved over the v1 machine, whose reachable relation includes AddInput/RemoveInput/Stop steps and in which removed priorities keep their in-flight count (C01_v1_*; the ErrQuantityExceeded branch is unreachable). Simplified disciplines: v2 Simple is the v2 model plus auto-taking handlers and is compared exactly (concurrent Handle calls = held items); v1 Simple is monitored (concurrent Handle calls <= H).",
+        text="Full (safety, unbounded) on the v2 model: for every divider (stateful and faulty ones included, only assumed to return a map), every mix of buffered and unbuffered inputs and every interleaving of producers, consumers, releases and clock ticks, each priority's in-flight counter equals the items of that priority in the output buffer, held by handlers and waiting in the feedback channel, the total never exceeds HandlersQuantity, and inside a round actual+tactic stays within it (C01_v2_accounting/capacity/round_budget). The model is tied to v2 and v1 by exact comparison, after every driver operation, of deliveries, output length, the scheduling state (actual/strategic per priority, read through a build-tagged snapshot hook) and the divider-call arguments; the capacity is monitored on the implementation, in v1 also across AddInput/RemoveInput. The same invariant is proved over the v1 machine, whose reachable relation includes AddInput/RemoveInput/Stop steps and in which removed priorities keep their in-flight count (C01_v1_*; the ErrQuantityExceeded branch is unreachable). Simplified disciplines: v2 Simple is the v2 model plus auto-taking handlers and is compared exactly (concurrent Handle calls = held items); v1 Simple is the v1 model plus auto-taking handlers with the discipline's own channel capacities (Run.run_simple1) and is compared exactly on graceful endings; Stop/cancel endings are monitored (concurrent Handle calls <= H).",
         ref="5.C01", note=STD + "No axioms. Environment assumption: handlers release only items they received (otherwise the unsigned counter wraps: API misuse).",
         technique="Coq inductive invariant over a pc-machine/environment LTS + fake-time differential correspondence with state snapshots"),
     "C02": dict(
@@ -20,11 +20,11 @@ CLAIMED = {
         ref="5.C02", note=STD + "No axioms. Put on a closed input is not enabled (Go panics).",
         technique="Coq inductive invariant (per-priority split) + fake-time differential correspondence"),
     "C05": dict(
-        text="Full on the v2 model for saturated executions (no Close; whenever the scheduler looks at an input, or the clock ticks while it waits on one, the input has data): every priority's in-flight count stays within its strategic share and whenever the scheduler waits for a release every handler is occupied, i.e. every priority holds exactly its share -- for ANY divider (C05_v2_share_bound, C05_v2_full_when_quiet); the weaker reading of saturation that ignores clock ticks is refuted by a kernel-checked counterexample with an unbuffered input (C05_v2_literal_saturation_refuted), which is why the property speaks of buffered inputs. Tied to v2 by exact comparison of the in-flight vector with inputs pre-filled before New(); share bound and 'quiet => exactly the shares' monitored against independently computed shares, including priorities >= 2^63.",
+        text="Full on the v2 model for saturated executions (no Close; whenever the scheduler looks at an input, or the clock ticks while it waits on one, the input has data): every priority's in-flight count stays within its strategic share and whenever the scheduler waits for a release every handler is occupied, i.e. every priority holds exactly its share -- for ANY divider (C05_v2_share_bound, C05_v2_full_when_quiet); the weaker reading of saturation that ignores clock ticks is refuted by a kernel-checked counterexample with an unbuffered input (C05_v2_literal_saturation_refuted), which is why the property speaks of buffered inputs. Tied to v2 by exact comparison of the in-flight vector with inputs pre-filled before New(); share bound and 'quiet => exactly the shares' monitored against independently computed shares, including priorities >= 2^63. v1: the same saturated scripts (inputs filled before New by writers that block behind small buffers) are compared exactly with the v1 model and monitored against the shares; the saturation theorems themselves are stated for the v2 machine.",
         ref="5.C05", note=STD + "No axioms.",
         technique="Coq invariant over saturated executions + fake-time differential correspondence"),
     "C06": dict(
-        text="Partial (bounded-progress lemmas, no theorem about infinite runs): on the v2 model the scheduler waits for a release only when one is owed (C06_v2_no_wait_when_idle); from the top of a round with nothing in flight and some undrained input holding data an item is written to the output within 3n+1 own steps with no release (C06_v2_round_delivers(_auto)); a priority alone in having data, from a clean state and with the output drained, reaches HandlersQuantity in flight (C06_v2_alone_gets_all). Global 'eventually delivered' under weak fairness is argued from these in DESIGN.md, not mechanised. Correspondence on progress per operation; monitors: never 'quiet, nothing in flight, data waiting'; everything delivered by the end of a releasing finale; the alone clause from a clean state. v1 accepts configurations with a zero share, for which the property fails: recorded known finding (v1 has no constructor check).",
+        text="Partial (bounded-progress lemmas, no theorem about infinite runs): on the v2 model the scheduler waits for a release only when one is owed (C06_v2_no_wait_when_idle); from the top of a round with nothing in flight and some undrained input holding data an item is written to the output within 3n+1 own steps with no release (C06_v2_round_delivers(_auto)); a priority alone in having data reaches HandlersQuantity in flight with no release, from a clean state (C06_v2_alone_gets_all) and from every state in which nothing else is in flight and it holds no more than its share (C06_v2_alone_within_share); above its share it may have to wait for one more release (kernel-checked witness C06_v2_alone_above_share_waits), which is why the clause is stated and monitored 'within its share'. Global 'eventually delivered' under weak fairness is argued from these in DESIGN.md, not mechanised. Correspondence on progress per operation; monitors: never 'quiet, nothing in flight, data waiting'; everything delivered by the end of a releasing finale; the alone clause from a clean state and, at every settled operation, 'alone in having data, within its share, nothing else in flight, vacant handlers => something is offered'. v1 accepts configurations with a zero share, for which the property fails: recorded known finding (v1 has no constructor check).",
         ref="5.C06, 6 (D4)", note=STD + "No axioms. Fairness of Go's select (unbuffered inputs, v1 selects) is an assumption, not modelled probabilistically.",
         technique="Coq bounded-reachability lemmas (variant + no-blocking) + fake-time differential correspondence"),
     "C07": dict(
